@@ -72,7 +72,7 @@ def run(ctx):
         ix = hq.Index(rb)
         a = [x for x in hq.find(rb["body"], lambda x: x.get("k") == "Assign" and hq.self_fields(x["l"]) == ["accuracy_log"])]
         s = hq.Canon(rb)(a[0]["r"]) if a else None
-        ok = s in ("((ruzstd::bit_io::bit_reader::BitReader::get_bits(@mut:BitReader::new, 4)? as u8) + ruzstd::fse::fse_decoder::ACC_LOG_OFFSET)",)
+        ok = s in ("((ruzstd::bit_io::bit_reader::BitReader::get_bits(@mut:BitReader::new, 4)? as u8) + %d)" % SPEC["sequences_header"]["acc_log_offset"],)
         ctx.check(ok, RC, "reader::acc-log-field", rb["file"], "accuracy log = 4-bit field + ACC_LOG_OFFSET, read first", observed=s)
         wb = ctx.hir(FSEE + "::FSETable::write_table")
         ws = [x for x in hq.find(wb["body"], lambda x: x.get("k") == "MethodCall" and x["name"] == "write_bits")]
